@@ -54,6 +54,47 @@ def scan_time_writers(repo):
     return dict(status="ok", obligation=ob, detail="")
 
 
+def scan_callers(repo, method, allowed, what):
+    """frame obligation: `.method(` is called only from the functions in `allowed`"""
+    import glob, sys
+    sys_path = os.path.join(VERIF, "vx")
+    if sys_path not in sys.path:
+        sys.path.insert(0, sys_path)
+    from rustlex import mask
+    found = set()
+    for path in glob.glob(os.path.join(repo, "rustzx-core/src", "**", "*.rs"), recursive=True):
+        src = open(path).read()
+        msk = mask(src)
+        for m in re.finditer(r"\.\s*" + re.escape(method) + r"\s*\(", msk):
+            fns = [x for x in re.finditer(r"\bfn\s+(\w+)", msk[:m.start()])]
+            fn = fns[-1].group(1) if fns else "?"
+            found.add("%s::%s" % (os.path.relpath(path, repo), fn))
+    ob = "scan::callers(%s) within %s" % (method, sorted(allowed))
+    extra = found - set(allowed)
+    if extra:
+        return dict(status="fail", obligation=ob, detail="%s: new caller(s) %s" % (what, sorted(extra)))
+    if not found:
+        return dict(status="undecided", obligation=ob, detail="no caller found (lost anchor)")
+    return dict(status="ok", obligation=ob, detail="")
+
+
+def scan_remap_callers(repo):
+    return scan_callers(repo, "remap", {"rustzx-core/src/zx/controller.rs::write_7ffd"},
+                        "the memory map may only be changed by the paging latch")
+
+
+def scan_paging_writers(repo):
+    allowed = {"rustzx-core/src/zx/controller.rs::write_7ffd"}
+    found = grep_writers(repo, "paging_enabled", allowed) | grep_writers(repo, "current_port_7ffd", allowed)
+    ob = "scan::frame(paging_enabled,current_port_7ffd) writers == {write_7ffd}"
+    extra = found - allowed
+    if extra:
+        return dict(status="fail", obligation=ob, detail="new writer(s) of the paging latch/lock: %s" % sorted(extra))
+    if not found:
+        return dict(status="undecided", obligation=ob, detail="no writer found (lost anchor)")
+    return dict(status="ok", obligation=ob, detail="")
+
+
 CORE_ASSUME = [
     "Kani harnesses run on an add-only overlay of a scratch copy of /repo (kani/inject.py); proc-macro2 bumped to 1.0.106 in the scratch Cargo.lock (build-script dependency only)",
 ]
@@ -74,7 +115,39 @@ NOT_APPLICABLE = {
 for _p in ["C%02d" % i for i in range(1, 21)]:
     NOT_APPLICABLE.setdefault(_p, "check not built yet in this round (planned, see DESIGN.md §4)")
 
+CTL_STUBS = [
+    "Kani stubs in controller-level harnesses: libm::sqrt (exact on {0,0.5,1}, else arbitrary >= 0; feeds AY pan gains only), "
+    "ZXMixer::process and ZXScreen::process_clocks replaced by no-ops (take &mut to their own struct only; C19/C08 own their behaviour)",
+    "host traits implemented by kani/core/host.rs (VHost): recording IoExtender with one symbolic claim answer per access",
+]
+
+K_READ_IO = dict(name="K-core::ctl_io", package="rustzx-core", features="full",
+                 harnesses=["read_io_routing"],
+                 functions={"read_io_routing": ["ZXController::read_io (real controller built by ZXController::new, features full)",
+                                                "ZXAyChip::read", "KempstonJoy::read"]},
+                 assumptions=CORE_ASSUME + CTL_STUBS + [
+                     "read_io_routing fixes frame_clocks=100 (no contention / no picture fetch): complete in port, device "
+                     "configuration and device state; the clock dimension of the floating bus is the Verus contract of floating_bus_value"],
+                 timeout=3000)
+
 PROPS = {
+    "C06": dict(
+        level="proof",
+        claim="Deductive proof (Verus, all addresses/values/latch histories by invariant induction) that ZXMemory read/write implement the (page,offset) view, that a write is read back through exactly the windows mapping the same bank, that ROM windows ignore writes, and that write_7ffd maintains the paging invariant map = f(machine, latch) with the lock bit; syntactic frame obligations pin the only callers of remap and the only writers of the latch.",
+        note="Assumes: extraction rules; ROM *contents* equal the supplied image only through rom_page_data_mut's range contract (host-supplied ROM loading loop is covered under C15); SNA/SZX loaders reach paging only through write_7ffd (scan).",
+        verus=["ctl"],
+        scans=[scan_remap_callers, scan_paging_writers],
+        explanation="memory map / paging invariant / alias lemma as postconditions of the real ZXMemory and ZXController functions",
+        not_mechanised=["induction over histories is the standard argument: every operation preserves inv() (each obligation is proved); the induction itself is not a Verus lemma"],
+    ),
+    "C07": dict(
+        level="proof",
+        claim="write side: Verus proof on the extracted real write_io that for every port selecting exactly one device the named device changes as stated and every other device is unchanged, and the extender log grows iff it claims the port; floating_bus_value equals the statement's fetch-window function for all frame clocks. read side: Kani proof on the real controller for all 65536 ports x device presence x device state.",
+        note="Assumes: closure postcondition annotation (R-closure) for the extender claim; Kani stubs (sqrt, mixer.process, screen.process_clocks no-ops); read harness at an uncontended clock; ambiguous ports (two devices selected) are outside the statement and unconstrained.",
+        verus=["ctl"],
+        kani=[K_READ_IO],
+        explanation="port decoding as contracts over the real write_io / read_io",
+    ),
     "C04": dict(
         level="proof",
         claim="Deductive proof (Verus, unbounded in T, address, port, paging state) that contention_clocks equals the statement's delay function and that every bus-wait method and both port-cycle halves advance emulated time by exactly the contended/uncontended amount; Kani proves the machine constants and the contended-bank table on the real tables.",
